@@ -589,6 +589,25 @@ def check_index(rec, root, mem, model, cap, wit):
         if len(fas) != nexp or len(fas) != len(mm['fas']):
             bad = bad or 'logical file %d: %d FrameArray entries for %d frame types (in-memory %d)' % (i, len(fas), nexp, len(mm['fas']))
             break
+        if model is not None and not bad:
+            # the frame type and channel entries carry the names, units, long names and descriptions of the file
+            for fa, ft in zip(fas, model.logical_files[i].frame_types):
+                exp_fa = {'I': ft.name[2], 'description': ft.description, 'x_units': ft.channels[0].units}
+                chans = [c for c in fa.iter() if localname(c.tag) == 'Channel']
+                pairs = [(fa, exp_fa)] + [(c, {'I': cm.name[2], 'long_name': cm.long_name, 'units': cm.units}) for c, cm in zip(chans, ft.channels)]
+                if len(chans) != len(ft.channels):
+                    bad = 'frame type %r: %d Channel entries for %d channels' % (ft.name[2], len(chans), len(ft.channels))
+                    break
+                for node, exp in pairs:
+                    for a, b in exp.items():
+                        sv = b.decode('latin-1')
+                        if representable(sv) and node.get(a) != sv:
+                            rec.mon('index_strings_recovered')
+                            if cap['n'] < 20:
+                                cap['n'] += 1
+                                rec.violation('index_strings_recovered', 'attribute-changed', 'frame type %r: %s attribute %s recovered as %r, the file holds %r' % (
+                                    ft.name[2], localname(node.tag), a, node.get(a), sv), dict(wit, attribute=a, recovered=node.get(a), written=sv))
+                            break
         for j, (fa, mf) in enumerate(zip(fas, mm['fas'])):
             rec.mon('index_rle_expansion')
             parts = {localname(e.tag): e for e in fa.iter() if localname(e.tag) in ('FrameNumbers', 'LRSH', 'Xaxis', 'IFLR', 'Channels')}
